@@ -22,6 +22,8 @@ func main() {
 		extract(os.Args[2], os.Args[3])
 	case "corr":
 		corr.Main(spec(), os.Args[2:])
+	case "runone":
+		runOne()
 	default:
 		os.Exit(2)
 	}
